@@ -161,6 +161,30 @@ pub fn spaces(tier: Tier) -> Vec<Space<'static>> {
             }
         }));
     }
+    // text operands that repeat a member name (the last value is the member's value), against each
+    // other and against the encoding of what they denote
+    {
+        let raw: Vec<&str> = vec![
+            "{\"a\":1,\"a\":2}", "{\"a\":2,\"a\":1}", "{\"a\":2}", "{\"a\":1}", "{\"b\":0,\"a\":1,\"a\":3}", "{\"a\":3,\"b\":0}", "[{\"a\":1,\"a\":2}]", "[{\"a\":2}]",
+            "{\"a\":{\"k\":1,\"k\":[]},\"a\":{\"k\":[],\"k\":1}}", "{\"a\":{\"k\":1}}", "{\"\":null,\"\":true}", "{\"\":true}", "{\"a\":1,\"b\":2,\"a\":1}", "{\"a\":1,\"b\":2}",
+        ];
+        let items: Arc<Vec<(String, RVal, Vec<u8>)>> = Arc::new(raw.into_iter().map(|s| { let v = refmodel::text::relaxed_json(s.as_bytes()).expect("model parses").val; let b = enc(&v); (s.to_string(), v, b) }).collect());
+        let m = items.len();
+        sp.push(Space::new("text operands with repeated member names", m as u64, move |i, acc| {
+            let (si, vi, bi) = &items[i as usize];
+            for (sj, vj, bj) in items.iter() {
+                let exp = ref_cmp(vi, vj);
+                for (cfg, a, b) in [("text,text", si.as_bytes(), sj.as_bytes()), ("text,bin", si.as_bytes(), &bj[..]), ("bin,text", &bi[..], sj.as_bytes())] {
+                    acc.eval();
+                    acc.nontrivial += 1;
+                    match guard(|| jsonb::compare(a, b)) {
+                        Ok(Ok(o)) if o == exp => {}
+                        other => acc.vio("compare-text:repeated-member-names:differs-from-the-order-of-the-denoted-values", || json!({"cfg": cfg, "a": si, "b": sj, "expected": format!("{:?}", exp), "observed": format!("{:?}", other.map_err(|p| panic_class(&p)))})),
+                    }
+                }
+            }
+        }));
+    }
     // text / binary configurations on a subset
     let sub: Vec<usize> = (0..n).filter(|i| d.texts[*i].is_some()).step_by((n / if tier.thorough() { 900 } else { 400 }).max(1)).collect();
     let m = sub.len();
